@@ -34,6 +34,7 @@ import (
 
 type obsv struct {
 	Out   string `json:"out"`
+	Err   string `json:"err,omitempty"` // CLI route only: what went to os.Stderr, byte for byte
 	Kind  string `json:"kind"`
 	Class string `json:"class,omitempty"`
 	Msg   string `json:"msg,omitempty"`
@@ -335,6 +336,9 @@ type execSpec struct {
 	Progs []string       `json:"progs"` // run in this order, each on a fresh VM; the last one is observed
 	Sel   map[string]int `json:"sel,omitempty"`
 	Trace bool           `json:"trace,omitempty"`
+	// CLI selects the CLI route (cliroute.go): the programs are the files <Dir>/<name>.zy
+	CLI bool   `json:"cli,omitempty"`
+	Dir string `json:"dir,omitempty"`
 }
 
 type execResult struct {
@@ -497,7 +501,11 @@ func execMain(arg string) {
 		if i == last && spec.Sel != nil {
 			sel = spec.Sel
 		}
-		ob = runWithOrder(findProg(name).Src, sel, nil)
+		if spec.CLI {
+			ob = runLikeCLI(spec.Dir, name, sel)
+		} else {
+			ob = runWithOrder(findProg(name).Src, sel, nil)
+		}
 	}
 	vshim.OnPoint = nil
 	r := execResult{Obs: ob, Shapes: shapes}
@@ -510,11 +518,19 @@ func execMain(arg string) {
 	fmt.Println(marker + string(b))
 }
 
-func pairWorker(w *pool.W, arg json.RawMessage) {
+func pairWorker(w *pool.W, arg json.RawMessage) { pairWork(w, arg, false) }
+
+func pairCLIWorker(w *pool.W, arg json.RawMessage) { pairWork(w, arg, true) }
+
+func pairWork(w *pool.W, arg json.RawMessage, cli bool) {
 	var bname string
 	json.Unmarshal(arg, &bname)
 	b := findProg(bname)
-	sr, err := selfExec(execSpec{Progs: []string{bname}, Trace: true})
+	dir, tag, route := "", "pair:", ""
+	if cli {
+		dir, tag, route = os.Getenv("C20_PROGDIR"), "pairc:", " (CLI route: file + LoadAndRun + ShowControl + shutdown callbacks, stdout/stderr/exit status compared byte for byte)"
+	}
+	sr, err := selfExec(execSpec{Progs: []string{bname}, Trace: true, CLI: cli, Dir: dir})
 	if err != nil {
 		w.Emit(rec{Kind: "fail", Key: "harness:solo-exec", Clause: "harness", Detail: fmt.Sprint(err)})
 		return
@@ -522,13 +538,13 @@ func pairWorker(w *pool.W, arg json.RawMessage) {
 	solo := sr.Obs
 	var n int64
 	for _, a := range pool_() {
-		if !w.Item("pair:" + a.Name + ";" + bname) {
+		if !w.Item(tag + a.Name + ";" + bname) {
 			continue
 		}
 		n++
 		// every pair runs in a brand-new process (A then B, nothing else), so the verdict does not
 		// depend on what this worker happened to run before
-		pr, err := selfExec(execSpec{Progs: []string{a.Name, bname}, Trace: true})
+		pr, err := selfExec(execSpec{Progs: []string{a.Name, bname}, Trace: true, CLI: cli, Dir: dir})
 		if err != nil {
 			w.Emit(rec{Kind: "fail", Key: "harness:pair-exec", Clause: "harness", Detail: fmt.Sprint(a.Name, ";", bname, ": ", err)})
 			continue
@@ -553,8 +569,8 @@ func pairWorker(w *pool.W, arg json.RawMessage) {
 		} else if len(car) > 3 {
 			key = "residue:via=" + strings.Join(car[:3], ",") + ",+" + fmt.Sprint(len(car)-3)
 		}
-		w.Emit(rec{Kind: "fail", Key: key, Clause: "fresh-vm-independence", Size: len(a.Src) + len(b.Src), Case: map[string]any{"a": a.Name, "b": bname},
-			Detail: fmt.Sprintf("B=%q alone in a new process: %s\nB on a fresh VM after A=%q: %s\npackage-level variables written by A and read by B with a different value than B alone sees: %v (all candidates: %v)", bname, solo, a.Name, pr.Obs, car, pr.Carriers)})
+		w.Emit(rec{Kind: "fail", Key: key, Clause: "fresh-vm-independence", Size: len(a.Src) + len(b.Src), Case: map[string]any{"a": a.Name, "b": bname, "cli": cli},
+			Detail: fmt.Sprintf("B=%q alone in a new process"+route+": %s\nB on a fresh VM after A=%q: %s\npackage-level variables written by A and read by B with a different value than B alone sees: %v (all candidates: %v)", bname, solo, a.Name, pr.Obs, car, pr.Carriers)})
 	}
 	w.Emit(rec{Kind: "count", N: n})
 	if f := flakyChildCrashes.Swap(0); f > 0 {
@@ -585,7 +601,7 @@ func main() {
 		return
 	}
 	if pool.IsWorker() {
-		pool.Serve(map[string]pool.Handler{"order": orderWorker, "insertion": insertionWorker, "pair": pairWorker, "hist": histWorker, "bulk": bulkWorker})
+		pool.Serve(map[string]pool.Handler{"order": orderWorker, "insertion": insertionWorker, "pair": pairWorker, "pairc": pairCLIWorker, "hist": histWorker, "bulk": bulkWorker})
 	}
 	c := ev.New("C20")
 	defer runner.Cleanup()
@@ -603,6 +619,9 @@ func main() {
 	}
 	for _, p := range programs {
 		shards = append(shards, pool.Shard{Kind: "pair", Arg: p.Name})
+	}
+	for _, p := range programs {
+		shards = append(shards, pool.Shard{Kind: "pairc", Arg: p.Name})
 	}
 	maxLen := 5
 	if !c.Quick() {
@@ -633,7 +652,12 @@ func main() {
 	var total int64
 	allSites := map[string]bool{}
 	routeStats := map[string]int64{}
-	pool.Run(shards, pool.Options{HangTimeout: 5 * time.Minute}, func(si int, rb json.RawMessage) {
+	progDir, _ := os.MkdirTemp("/dev/shm", "c20-progs-")
+	defer os.RemoveAll(progDir)
+	if err := writePrograms(progDir); err != nil {
+		c.HarnessError("writing the pool programs failed: %v", err)
+	}
+	pool.Run(shards, pool.Options{HangTimeout: 5 * time.Minute, Env: []string{"C20_PROGDIR=" + progDir}}, func(si int, rb json.RawMessage) {
 		var r rec
 		json.Unmarshal(rb, &r)
 		switch r.Kind {
@@ -672,15 +696,13 @@ func main() {
 	} else if out, err := build.CombinedOutput(); err != nil {
 		c.HarnessError("building the CLI failed: %v %s", err, out)
 	} else {
-		dir, _ := os.MkdirTemp("/dev/shm", "c20-cli-")
-		defer os.RemoveAll(dir)
+		dir := progDir
 		reps := 5
 		if !c.Quick() {
 			reps = 20
 		}
 		for _, p := range programs {
-			f := dir + "/" + p.Name + ".zy"
-			os.WriteFile(f, []byte(p.Src), 0o644)
+			f := progFile(dir, p.Name)
 			first := cliRun(bin, f)
 			for i := 1; i < reps; i++ {
 				total++
@@ -706,6 +728,8 @@ func main() {
 	if len(sites) < 5 && os.Getenv("C20_ONLY") == "" {
 		c.HarnessError("vacuous: only %d range-over-map sites were reached", len(sites))
 	}
+	os.RemoveAll(progDir)
+	runner.Cleanup()
 	c.Finish(int64(len(programs)*len(programs)+len(sites)), total, total, fmt.Sprintf("%d pool programs x (all-ascending baseline + every single-site deviation incl. all permutations of maps <= 4 entries + every pair of deviating sites); all insertion sequences of <= 4 distinct keys from a pool of 6 into arrays and objects; all %d ordered pairs (A;B) vs B alone in a new process; CLI repetitions", len(programs), len(programs)*len(programs)))
 }
 
